@@ -1,10 +1,10 @@
 (* C05 - Client: every operation completes exactly once under cancel, Close and failure.
    Property theorems only; every proof is `exact <lemma>` (lemmas in coq/cli/CliC05.v, CliProofs.v, CliLive.v,
-   CliHist.v, CliWg.v, CliStop.v, CliCloseWait.v, CliGo.v; invariants in coq/cli/CliInv.v, CliRet.v, CliCtx.v, CliOps.v, CliHist.v, CliWg.v,
+   CliHist.v, CliWg.v, CliStop.v, CliCloseWait.v, CliGo.v, CliFail.v; invariants in coq/cli/CliInv.v, CliRet.v, CliCtx.v, CliOps.v, CliHist.v, CliWg.v,
    CliStop.v). *)
 From Coq Require Import List NArith ZArith Bool Arith.
 From RecordUpdate Require Import RecordUpdate.
-From JV Require Import Bytes Msg CliModel CliLemmas CliInv CliRet CliProofs CliC05 CliCtx CliOps CliHist CliLive CliWg CliSend CliNoStop CliStep CliStop CliObs CliCloseWait CliGo.
+From JV Require Import Bytes Msg CliModel CliLemmas CliInv CliRet CliProofs CliC05 CliCtx CliOps CliHist CliLive CliWg CliSend CliNoStop CliStep CliStop CliObs CliCloseWait CliGo CliOpTrans CliFail.
 Import ListNotations.
 
 (* EXACTLY ONE RETURN (full statement).  In every history of every schedule each operation (Call, Batch, Notify,
@@ -156,3 +156,49 @@ Theorem c05_no_goroutine_left : forall c tr s, traces_to c tr s -> quiescent s =
   /\ (forall d, In d (delivs s) -> d_st d = DDone) /\ (forall cb, In cb (cbs s) -> cb_st cb = CbDone).
 Proof. exact no_goroutine_left. Qed.
 Print Assumptions c05_no_goroutine_left.
+
+(* THE OUTCOME OF AN OPERATION THAT FAILED (every trace).  If operation n returned the error f then it is finished with
+   that value; none of the ids it allocated is registered, pending, written or watched; no request record whose Send
+   succeeded carries one of its ids ([no_record_with s o P]: no [OSendReq ok ..] of the history with P ok has a member
+   whose id is the id of a slot of o); and by cases on f:
+     EStopped c0 (operation on a stopped client): c0 is the recorded stop cause and NO request record at all carries
+       its ids - it failed without transmitting;
+     ESendFail ("a non-nil error if its channel failed"): its complete request record [req_obs false s o] is in the
+       history with a failed Send - the transport refused it;
+     EBadParams: one of its specs does not marshal, and nothing was transmitted;
+     EEmptyBatch: it has no specs and allocated nothing. *)
+Theorem c05_fail_outcome : forall c tr s, traces_to c tr s -> forall n f, In (ORet n (RetFail f)) (hist s) ->
+  exists o, op_at s n = Some o /\ o_pc o = PDone /\ o_ret o = Some (RetFail f)
+    /\ (forall i, In i (o_slots o) ->
+          exists sl, slot_at s i = Some sl /\ sl_op sl = n /\ sl_reg sl = false /\ sl_buf sl = None /\ sl_watch sl = WNone
+                     /\ assoc (id_text (sl_id sl)) (pending s) = None)
+    /\ no_record_with s o (fun ok => ok = true)
+    /\ match f with
+       | EStopped c0 => err s = Some c0 /\ no_record_with s o (fun _ => True)
+       | ESendFail => In (req_obs false s o) (hist s)
+       | EBadParams => has_bad (o_specs o) /\ no_record_with s o (fun _ => True)
+       | EEmptyBatch => o_specs o = [] /\ o_slots o = []
+       end.
+Proof. exact fail_outcome. Qed.
+Print Assumptions c05_fail_outcome.
+
+(* a Notify that returned nil: its notification (no id) was handed to the transport and the Send succeeded *)
+Theorem c05_notify_outcome : forall c tr s, traces_to c tr s -> forall n, In (ORet n RetNotify) (hist s) ->
+  exists o sp, op_at s n = Some o /\ o_kind o = KNotify /\ o_specs o = [sp] /\ sp_notify sp = true
+               /\ In (OSendReq true false [([], sp_method sp, sp_params sp)]) (hist s).
+Proof. exact notify_outcome. Qed.
+Print Assumptions c05_notify_outcome.
+
+(* OPERATIONS ON A STOPPED CLIENT FAIL WITHOUT TRANSMITTING (trace-level form of c05_after_stop).  If the client has
+   stopped in s1 and the next label issues operation n, then in every later state: its Send never succeeded and never
+   failed (it never reached the transport), no request record anywhere in the history carries one of its ids, and all
+   it can have returned is the stop error or a local validation error (or, for a Close, Close's own result). *)
+Theorem c05_after_stop_trace : forall c tr1 s1 n k specs tr2 s, traces_to c tr1 s1 -> err s1 <> None ->
+  traces_to c (tr1 ++ LOp n k specs :: tr2) s ->
+  forall o, op_at s n = Some o ->
+    sent' o = false /\ send_failed o = false
+    /\ no_record_with s o (fun _ => True)
+    /\ (forall r, In (ORet n r) (hist s) ->
+          match r with RetFail (EStopped _) | RetFail EBadParams | RetFail EEmptyBatch | RetClose _ => True | _ => False end).
+Proof. exact after_stop_trace. Qed.
+Print Assumptions c05_after_stop_trace.
